@@ -45,7 +45,7 @@ class IAdder(abc.ABC):
             adder_impl.Po2Adder,
             adder_impl.Po2FixedPointAdder,
             adder_impl.Po2FixedPointAdder,
-            adder_impl.FixedPointAdder,
+            adder_impl.Po2FixedPointAdder,
             adder_impl.FloatingPointAdder
         ],
         [
